@@ -505,6 +505,12 @@ fn thrx_main(args: &Args) -> i32 {
             .set("deadlocks", r.deadlocks)
             .set("distinct_observations", r.distinct_observations)
             .set("sample", r.sample.clone())
+            .set("sequential_equivalence", {
+                let mut st = thrx::SEQ_EQ_STATS.lock().unwrap();
+                let v = J::obj().set("final_states_judged", st.0).set("continuations_run", st.1).set("sequential_orders_tried", st.2);
+                *st = (0, 0, 0);
+                v
+            })
             .set("wall_s", t0.elapsed().as_secs_f64()),
     );
     for v in &r.violations {
